@@ -13,9 +13,11 @@ import time
 import traceback
 
 VERIF = os.path.dirname(os.path.dirname(os.path.abspath(__file__)))
+# evidence/ and replays/ go here; PYVC_OUT redirects them (used when a scratch tree is checked)
+OUT = os.environ.get('PYVC_OUT', VERIF)
 REPO = os.environ.get('PYVC_REPO', '/repo')
 
-EXIT_OK, EXIT_VIOLATION, EXIT_ERROR = 0, 1, 3
+EXIT_OK, EXIT_VIOLATION, EXIT_UNDECIDED, EXIT_ERROR = 0, 1, 2, 3
 
 
 def _load_modules(prop, kind):
@@ -138,9 +140,9 @@ def run_property(prop, tier='quick', seed=0, jobs=None, only=None):
   sys.path.insert(0, VERIF)
   if REPO not in sys.path:
     sys.path.insert(0, REPO)
-  os.makedirs(os.path.join(VERIF, 'evidence'), exist_ok=True)
-  os.makedirs(os.path.join(VERIF, 'replays'), exist_ok=True)
-  ev_path = os.path.join(VERIF, 'evidence', f'{prop}.json')
+  os.makedirs(os.path.join(OUT, 'evidence'), exist_ok=True)
+  os.makedirs(os.path.join(OUT, 'replays'), exist_ok=True)
+  ev_path = os.path.join(OUT, 'evidence', f'{prop}.json')
   if os.path.exists(ev_path):
     os.unlink(ev_path)
   jobs = jobs or min(16, os.cpu_count() or 4)
@@ -352,7 +354,7 @@ def run_property(prop, tier='quick', seed=0, jobs=None, only=None):
   if not errors:
     for name, o, r in violations:
       model = o.get('model') or {}
-      rp = os.path.join(VERIF, 'replays', f'{prop}-{_san(name)}.json')
+      rp = os.path.join(OUT, 'replays', f'{prop}-{_san(name)}.json')
       rec = dict(property=prop, obligation=name, kind='obligation',
                  contract=r['contract'], target=r['target'], model=model,
                  trail=o.get('trail'), info=o.get('info'),
@@ -374,7 +376,7 @@ def run_property(prop, tier='quick', seed=0, jobs=None, only=None):
       out(f'  failed obligation: {name}  (replay: {outcome.get("outcome")})')
       exit_code = EXIT_VIOLATION
     for fl in b_fail:
-      rp = os.path.join(VERIF, 'replays', f'{prop}-bounded-{_san(fl["case_id"])}.json')
+      rp = os.path.join(OUT, 'replays', f'{prop}-bounded-{_san(fl["case_id"])}.json')
       with open(rp, 'w') as f:
         json.dump(dict(property=prop, kind='bounded', **fl, tree=_tree_id()), f, indent=1, default=str)
       out(f'VIOLATION property={prop} replay={rp}')
@@ -382,6 +384,9 @@ def run_property(prop, tier='quick', seed=0, jobs=None, only=None):
       exit_code = EXIT_VIOLATION
   for name, why in undecided:
     out(f'UNDECIDED obligation={name} reason={why}')
+  if undecided and exit_code == EXIT_OK:
+    # neither proved nor refuted on this tree: not a pass, and not a violation
+    exit_code = EXIT_UNDECIDED
 
   wall = time.time() - t0
   proof_ok = (n_ob > 0 and n_dis == n_ob and not errors)
